@@ -119,6 +119,7 @@ class Run(object):
         self.stopped_early = False
         self.jobs = 1
         self.step = 8
+        self.findings = None
 
     def open_pool(self):
         jobs = int(os.environ.get('VERIF_JOBS', '0')) or min(multiprocessing.cpu_count(),
@@ -140,14 +141,19 @@ class Run(object):
         implementation may make every remaining case slow).  Work is handed to the pool in small slices
         and the early stop happens BETWEEN slices, so the pool is never torn down with tasks in flight
         (terminate()/join() with a busy task feeder can dead-lock in CPython)."""
+        def unlisted(r):
+            # failures that are not open known findings (those are printed, never a reason to stop early)
+            fs = r[1].get('d_fail') or [] if r[0] == 'ok' else []
+            f = self.findings
+            return any(not (f and f.match(self.ctx.prop, df['sig'])) for df in fs)
         if self.pool is None:
             it = map(_worker, cases)
             out, bad = [], 0
             for r in it:
                 out.append(r)
-                if r[0] == 'crash' or (r[1].get('d_fail') and bad + 1 >= MAX_FAILS):
+                if r[0] == 'crash' or (unlisted(r) and bad + 1 >= MAX_FAILS):
                     break
-                bad += 1 if r[1].get('d_fail') else 0
+                bad += 1 if unlisted(r) else 0
         else:
             out, bad = [], 0
             i, step = 0, self.step
@@ -155,7 +161,7 @@ class Run(object):
                 part = self.pool.map(_worker, cases[i:i + step], chunksize=max(1, step // (8 * self.jobs)))
                 i += step
                 out.extend(part)
-                nbad = sum(1 for r in part if r[0] == 'ok' and r[1].get('d_fail'))
+                nbad = sum(1 for r in part if unlisted(r))
                 bad += nbad
                 if bad >= MAX_FAILS or any(r[0] == 'crash' for r in part):
                     break
@@ -168,6 +174,7 @@ class Run(object):
         return out
 
     def process(self, cases, use_model=True, findings=None):
+        self.findings = findings
         ctx, mod = self.ctx, self.mod
         results = self.impl_batch(cases)
         cases = cases[:len(results)]
